@@ -298,6 +298,13 @@ func (s *Server) manifestPut(repoStr, arg string) http.HandlerFunc {
 				s.log.Debug("failed to parse image manifest", "repo", repoStr, "arg", arg, "mediaType", mt, "err", err)
 				return
 			}
+			// the content type must match the manifest content
+			if (m.MediaType != "" && m.MediaType != mt) || (m.MediaType == "" && types.MediaTypeIndex(types.MediaTypeDetect(mRaw))) {
+				w.WriteHeader(http.StatusBadRequest)
+				_ = types.ErrRespJSON(w, types.ErrInfoManifestInvalid("manifest does not match content type: "+mt))
+				s.log.Debug("manifest does not match content type", "repo", repoStr, "arg", arg, "mediaType", mt)
+				return
+			}
 			// validate image blobs exist
 			eList := s.manifestVerifyImage(repo, m)
 			if eList != nil {
@@ -326,6 +333,13 @@ func (s *Server) manifestPut(repoStr, arg string) http.HandlerFunc {
 				w.WriteHeader(http.StatusBadRequest)
 				_ = types.ErrRespJSON(w, types.ErrInfoManifestInvalid("manifest could not be parsed"))
 				s.log.Debug("failed to parse image manifest", "repo", repoStr, "arg", arg, "mediaType", mt, "err", err)
+				return
+			}
+			// the content type must match the manifest content
+			if (m.MediaType != "" && m.MediaType != mt) || (m.MediaType == "" && types.MediaTypeImage(types.MediaTypeDetect(mRaw))) {
+				w.WriteHeader(http.StatusBadRequest)
+				_ = types.ErrRespJSON(w, types.ErrInfoManifestInvalid("manifest does not match content type: "+mt))
+				s.log.Debug("manifest does not match content type", "repo", repoStr, "arg", arg, "mediaType", mt)
 				return
 			}
 			addOpts = append(addOpts, types.IndexWithChildren(m.Manifests))
